@@ -73,11 +73,11 @@ CHECKS.update({
 })
 CHECKS.update({
  "C04": dict(level=MC, ref="DESIGN.md 5/C04",
-   text="MemfsConc.tla models threads x calls x critical sections over the Vfs operators with explicit invoke/return; TLC explores every interleaving of every 2-thread program of the bound and checks Linearizable (program order + real-time precedence), AppendsExactlyOnce, QuiescentWellFormed and termination; LockProto checks mutual exclusion, no nested acquisition, no deadlock and eventual grant under writer preference. Two negative controls (the split write_all/append_all decomposition; nested acquisition) must be rejected by TLC on every run. The real code runs under a controlled scheduler built on the guard hooks: every interleaving of the invoke and guard gates of all 576 two-thread one-call programs and of sampled 2x2/3x1(/2x3) programs on real threads, plus free-running stress ordered by stamps taken under the lock; TLC judges every schedule (exactly one guard per single-step call, sequential outcome in critical-section order, well-formed quiescent state, no nested acquisition / deadlock / poison).",
+   text="MemfsConc.tla models threads x calls x critical sections over the Vfs operators with explicit invoke/return; TLC explores every interleaving of every 2-thread program of the bound and checks Linearizable (program order + real-time precedence), AppendsExactlyOnce, QuiescentWellFormed and termination; LockProto checks mutual exclusion, no nested acquisition, no deadlock and eventual grant under writer preference. Two negative controls (the split write_all/append_all decomposition; nested acquisition) must be rejected by TLC on every run. The real code runs under a controlled scheduler built on the guard hooks: every interleaving of the invoke and guard gates of all 576 two-thread one-call programs and of sampled 2x2/3x1(/2x3) programs on real threads, plus free-running stress ordered by stamps taken under the lock; TLC judges every schedule (exactly one guard per single-step call, sequential outcome in critical-section order, well-formed quiescent state, no nested acquisition / deadlock / poison). Extra (nothing depends on it): Apalache discharges TypeOK /\\ MutualExclusion /\\ NoNestedAcquire /\\ NoDeadlock as an inductive invariant of the typed transcription LockProtoInd (behaviours of any length, 4 threads); the variant with nested read acquisition must be rejected.",
    note=VFS_NOTE + " Interleavings are enumerated at critical-section granularity - complete for the shared state because MemfsInner is reachable only through a guard; memory ordering inside std is out of scope. Hooks: --cfg rivia_verif (add-only).",
    technique="TLA+ concurrent state machine (threads x critical sections) model-checked with TLC incl. linearizability + TLC validation of exhaustively enumerated real schedules (controlled scheduler via hooks)"),
  "C12": dict(level="exploration", ref="DESIGN.md 5/C12",
-   text="Totality.tla is the usable/wedged acceptance automaton (no action for panic, timeout, failed probe or poisoned lock; every error must be followed by a successful probe), model-checked by MC_Totality; the driver feeds every public Memfs method (all 52 trait methods, handles, entries options, builders), every path helper and the string/iterator extensions with every string up to length 3 (quick) / 4-5 (thorough) over an adversarial alphabet with 2-/3-/4-byte characters plus hand-picked nasties, each call under catch_unwind in supervised workers (progress file, stall = hang, RLIMIT_AS); TLC validates the event stream against the automaton. Exploration, not proof: detection of a panic is catch_unwind, of a hang the supervisor. Harness builds carry overflow-checks, so an arithmetic overflow is a panic as in the crate's own test profile.",
+   text="Totality.tla is the usable/wedged acceptance automaton (no action for panic, timeout, failed probe or poisoned lock; every error must be followed by a successful probe), model-checked by MC_Totality; the driver feeds every public Memfs method (all 52 trait methods, handles, entries options, builders), every path helper and the string/iterator extensions with every string up to length 3 (quick) / 4-5 (thorough) over an adversarial alphabet with 2-/3-/4-byte characters plus hand-picked nasties, each call under catch_unwind in supervised workers (progress file, stall = hang, RLIMIT_AS); TLC validates the event stream against the automaton. Exploration, not proof: detection of a panic is catch_unwind, of a hang the supervisor. Harness builds carry overflow-checks, so an arithmetic overflow is a panic as in the crate's own test profile. Beyond the property (reported as BEYOND-PROPERTY, never as a violation): Errors.tla, the error algebra of src/errors (MC_Errors + negative control; every variant and constructor built for real, judged by Trace_Errors).",
    note="Trusted: catch_unwind, the supervisor's stall detection (10 s), TLC for the automaton. Bounded input length; 4 KiB names only by hand-picked samples.",
    technique="TLA+ acceptance automaton model-checked with TLC + TLC validation of supervised exploration traces (exhaustive short adversarial inputs)"),
 })
